@@ -37,13 +37,18 @@ def _nodes(group):
     return out
 
 
+def _maxlen(n):
+    return R.N(2) if n == 2 else R.M(1)
+
+
 def row_spans(c1: str, c2: str, c3: str, n: int) -> bool:
     """
     pre: 2 <= n <= 3
-    pre: len(c1) <= R.N(2) and len(c2) <= R.N(2) and len(c3) <= R.N(2)
+    pre: len(c1) <= _maxlen(n) and len(c2) <= _maxlen(n) and len(c3) <= _maxlen(n)
     pre: n == 3 or c3 == ""
     pre: R.env_int("VP_K") is None or n == R.env_int("VP_K")
     pre: R.env_int("VP_L1") is None or len(c1) == R.env_int("VP_L1")
+    pre: R.env_int("VP_L2") is None or len(c2) == R.env_int("VP_L2")
     post: _
     """
     # a row assembled from the cells of several columns: every tag/group of the combined annotation is located,
@@ -143,19 +148,24 @@ HARNESSES = [
     R.H("row_spans",
         ["hed.models.hed_string.HedString.from_hed_strings", "hed.models.hed_string.HedString._get_org_span",
          "hed.models.hed_string.HedString._get_org_span_from_strings", "hed.models.hed_group.HedGroup.check_if_in_original"],
-        quick=R.tier(cells=R.product_cells(R.int_cells("VP_K", 2, 3), R.int_cells("VP_L1", 0, 2)), env={"VP_N": 2},
-                     timeout=240, bound="2-3 cells, each any Unicode text of <= 2 characters"),
-        thorough=R.tier(cells=R.product_cells(R.int_cells("VP_K", 2, 3), R.int_cells("VP_L1", 0, 3)), env={"VP_N": 3},
-                        timeout=1500, path_timeout=60, bound="2-3 cells, each <= 3 characters"),
+        quick=R.tier(cells=R.product_cells([{"VP_K": 2}], R.int_cells("VP_L1", 0, 2), R.int_cells("VP_L2", 0, 2))
+                     + R.product_cells([{"VP_K": 3}], R.int_cells("VP_L1", 0, 1), R.int_cells("VP_L2", 0, 1)),
+                     env={"VP_N": 2, "VP_M": 1}, timeout=300,
+                     bound="2 cells of any Unicode text <= 2 characters each, or 3 cells of <= 1 character each"),
+        thorough=R.tier(cells=R.product_cells([{"VP_K": 2}], R.int_cells("VP_L1", 0, 3), R.int_cells("VP_L2", 0, 3))
+                        + R.product_cells([{"VP_K": 3}], R.int_cells("VP_L1", 0, 2), R.int_cells("VP_L2", 0, 2)),
+                        env={"VP_N": 3, "VP_M": 2}, timeout=1500, path_timeout=60,
+                        bound="2 cells <= 3 characters each, or 3 cells <= 2 characters each"),
         what="for a row combined from several cells, the reported span of every tag and group selects exactly that "
              "item's text inside its own cell's stretch of the comma-joined row text; foreign tags have no span",
         oracle="inline slice comparison",
         stubs=["NoSchema stub", "split_into_groups recompiled with `is` -> `==` on characters"],
         outside="SpreadsheetValidator row/column loop, pandas glue, row shuffling, totality of file validation"),
     R.H("onset_groups", ["hed.models.df_util._indexed_dict_from_onsets"],
-        quick=R.tier(env={"VP_N": 4}, timeout=200,
-                     bound="1-4 rows, non-decreasing integer onsets in [0,3], any subset n/a (solver-enumerated: the "
+        quick=R.tier(env={"VP_N": 3}, timeout=300,
+                     bound="1-3 rows, non-decreasing integer onsets in [0,3], any subset n/a (solver-enumerated: the "
                            "function keys a dict on the onset)"),
+        thorough=R.tier(env={"VP_N": 4}, timeout=1500, bound="1-4 rows, as quick"),
         what="time points are the maximal runs of equal onsets in file order; n/a rows belong to none",
         oracle="inline run grouping", stubs=[],
         outside="fractional onsets / the 1e-9 tolerance (floats are hashed, which realises them); pandas to_numeric"),
